@@ -127,8 +127,13 @@ def gen_plan(tape, cfg):
         for si in range(nsolves + 1):
             lst.append(_member_profile(tape, d, family == "faulty", all_fail=(all_fail_at == si)))
         profiles.append(lst)
-    member_opts = [tape.choice([None, None, {"random_seed": 7}, {"generate_models": True}], "member.opts")
+    member_opts = [tape.choice([None, None, {"random_seed": 7}, {"generate_models": True},
+                                {"solver_options": {":only-member": -1}}], "member.opts")
                    for _ in range(nmem)]
+    for j, mo_ in enumerate(member_opts):
+        if mo_ and "solver_options" in mo_:
+            # a solver-specific option: every other member answers 'unsupported' to it
+            member_opts[j] = {"solver_options": {":only-member": j}}
     # the documented usage [("s", {...}), ("s", {...})]: the same solver listed twice with different options
     member_names = ["m%d" % m for m in range(nmem)]
     if tape.chance(1, 4, "duplicate.names"):
@@ -140,6 +145,7 @@ def gen_plan(tape, cfg):
             "member_names": member_names,
             "incremental": bool(tape.draw(2, "incremental")),
             "exit_on_exception": tape.chance(1, 4, "exit_on_exception"),
+            "slow_start": tape.chance(1, 3, "slow_start"),
             "ops": ops}
 
 
@@ -213,6 +219,7 @@ def execute(plan, tape):
     kernel = Kernel(tape, max_steps=20000, max_time=300.0)
     world = World(kernel, tape)
     net = Net(kernel, tape)
+    net.slow_start = bool(plan.get("slow_start"))
     names = list((plan.get("member_names") or ["m%d" % m for m in range(nmem)])[:nmem])
     if len(names) < nmem:
         names += ["m%d" % m for m in range(len(names), nmem)]
@@ -230,7 +237,7 @@ def execute(plan, tape):
             return None
         si = max(state["solve_no"] - 1, 0)
         lst = plan["profiles"][idx % len(plan["profiles"])]
-        return (lst[min(si, len(lst) - 1)], idx, si)
+        return (dict(lst[min(si, len(lst) - 1)], member_tag=idx % max(1, nmem)), idx, si)
     world.profile_fn = profile_fn
     for n, s in symbols.items():
         mgr.Symbol(n, bp.to_pysmt_type(s, env))
